@@ -601,6 +601,18 @@ Example C20_fmap_hypotheses_nonvacuous :
 Proof. exact error_hyps_nonvacuous. Qed.
 Print Assumptions C20_fmap_hypotheses_nonvacuous.
 
+(* int / int true division (CPython rounds the exact quotient once) coincides, bit for bit,
+   with the IEEE division of the two floats for every pair of a finite grid of ints that
+   float() represents exactly: -60..60 and nine 40..53-bit boundary values (16900 pairs,
+   evaluated by the kernel; the bound is the statement).  Beyond 2^53 the two differ - that
+   is what int_truediv is for - and only the correspondence with CPython covers it. *)
+Theorem C20_int_truediv_grid : forall a b : Z,
+  In a zgrid -> In b zgrid -> b <> 0 ->
+  exists q fa fb, int_truediv a b = Some q /\ z2f a = Some fa /\ z2f b = Some fb /\
+                  sf_eqb q (fdiv fa fb) = true.
+Proof. exact int_truediv_grid_all. Qed.
+Print Assumptions C20_int_truediv_grid.
+
 (* the SpecFloat model against Coq's PRIMITIVE binary64 floats (kernel hardware arithmetic):
    Utils.map evaluated with the primitive operations agrees bit for bit with fmap_ff on all
    26620 tuples of a table of boundary values (specials, signed zeros, subnormals, DBL_MAX) *)
